@@ -48,7 +48,13 @@ CFGIDS = ["Access Control Headquarters Main Entrance Reader (version 7)", "Offic
           "10234-5678-6789-09 Door \tController", "My Project \t (version 07)", "00042-0001-0002-03 a\u00a0 b",
           "10234-5678-6789-09  two  blanks", "10234-5678-6789-09 Testname", "00001-0001-0000-01", "Some Name (version 07)",
           "99999-9999-9999-99 x", "12345-0000-0001-00 a (version 01)"]
-FILTERS = ["010100B6", "010280B600BE", "0101009B", "01034001800240AD"]
+FILTERS = ["010100B6", "010280B600BE", "0101009B", "01034001800240AD", "0100", "01018001"]
+
+
+# names for an extra header / instruction line of a near-valid BF2 text: the known ones, unknown ones, and words the
+# importer uses internally
+HDR_NAMES = ["Creator", "Firmware", "Bf3Update", "REBOOT", "CRC", "SELECT", "SELECT_IF", "CHECK_FWVER", "X", "",
+             "load", "load", "Component1", "FirmwareId"]
 
 
 def _damage_set(f):
@@ -57,7 +63,7 @@ def _damage_set(f):
     for _ in range(n):
         k = f.choice(["bin_rep", "bin_rep", "bin_rep_field", "bin_rep_field", "bin_cut", "bin_del", "bin_ins",
                       "bin_dup", "txt_flip", "txt_flip", "txt_set", "txt_set", "txt_cut", "line_lost",
-                      "line_dup", "line_swap", "nul_tail", "stale_tail", "empty", "hdr_only", "txt_del", "line_kind", "bf2_tt"])
+                      "line_dup", "line_swap", "nul_tail", "stale_tail", "empty", "hdr_only", "txt_del", "line_kind", "bf2_tt", "hdr_ins"])
         if k == "bin_rep":
             out.append([k, f.random(), f.choice(CLASSES)])
         elif k == "bin_rep_field":
@@ -76,6 +82,9 @@ def _damage_set(f):
             out.append([k, f.random(), f.random()])
         elif k == "bf2_tt":
             out.append([k, f.random(), f.choice(["-1", "-1", "-16", "00", "+1", "FF"])])
+        elif k == "hdr_ins":
+            out.append([k, f.random(), f.choice(HDR_NAMES), f.choice(["##: ", "##:", "#> ", "#>"]),
+                        f.choice(["x", "", "0x12", "01 02", "A=b", "Yes"])])
         elif k == "stale_tail":
             out.append([k, f.choice(["00\n", "4246330000\n", "\n\nAB\n", ":0000FF00\n", "k: v\n"])])
         else:
@@ -188,6 +197,17 @@ def apply_damage(orig, dset, crlf):
                     j = _pos(d[2], len(lines))
                     lines[i], lines[j] = lines[j], lines[i]
                 data = b"".join(lines)
+        elif k == "hdr_ins":
+            # a near-valid BF2 text: one more header / instruction line
+            lines = data.splitlines(keepends=True)
+            eol = b"\r\n" if crlf else b"\n"
+            name, how, val = d[2].encode(), d[3], d[4].encode()
+            if how.startswith("##"):
+                ln = b"##" + name + (b": " if how == "##: " else b":") + val
+            else:
+                ln = b"#>" + name + ((b" " + val) if how == "#> " and val else b"")
+            lines.insert(_pos(d[1], len(lines) + 1) if lines else 0, ln + eol)
+            data = b"".join(lines)
         elif k == "bf2_tt":
             # bit rot in the tag-type byte of one BF2 data line (a later line of a section then has a lower or
             # an unrelated type)
@@ -383,11 +403,25 @@ def _decryptors(mode, case, w, fs):
         elif b["t"] == "cust":
             if mode == "wrong":
                 out.append(bf.SoftwareCustKeyEncryptor(bytes(range(16))))
+            elif mode == "public":
+                # a crypto unit that can only encrypt (the plug-in point for hardware): decrypt() is the inherited
+                # NotImplementedError
+                inner = w.decryptors[i]
+
+                class EncryptOnlyCust(bf.CustKeyEncryptor):
+                    def encrypt(self, plaintext, inner=inner):
+                        return inner.encrypt(plaintext)
+                out.append(EncryptOnlyCust())
             else:
                 out.append(w.decryptors[i])
         else:
             if mode == "wrong":
                 out.append(bf.ConfigSecurityCodeEncryptor(b"\x01" * 8))
+            elif mode == "public":
+                class EncryptOnlyCode(bf.ConfigSecurityCodeEncryptor):
+                    def decrypt(self, ciphertext):
+                        raise NotImplementedError()
+                out.append(EncryptOnlyCode(bytes.fromhex(b["code"])))
             else:
                 out.append(w.decryptors[i])
     return out
